@@ -55,6 +55,62 @@ class AppErrU(Exception):
     """application error without a registered handler (falls to the default Exception handling)"""
 
 
+class _BadStr:
+    def __str__(self):
+        raise RuntimeError('__str__ of an exception argument raises')
+
+    __repr__ = __str__
+
+
+class AppErrHBad(AppErrH):
+    """the same, but it cannot be rendered: __str__ and __repr__ raise"""
+
+    def __str__(self):
+        raise RuntimeError('__str__ raises')
+
+    def __repr__(self):
+        raise RuntimeError('__repr__ raises')
+
+
+class AppErrUBad(AppErrU):
+    def __str__(self):
+        raise RuntimeError('__str__ raises')
+
+    def __repr__(self):
+        raise RuntimeError('__repr__ raises')
+
+
+class LifespanErrBadStr(RuntimeError):
+    def __str__(self):
+        raise ValueError('__str__ raises')
+
+
+class LifespanErrBadRepr(RuntimeError):
+    def __str__(self):
+        raise ValueError('__str__ raises')
+
+    def __repr__(self):
+        raise ValueError('__repr__ raises')
+
+
+RAISE_KINDS = ('raise', 'raise_badstr', 'raise_badrepr', 'raise_badargs')
+
+
+def lifespan_error(kind, what):
+    if kind == 'raise_badstr':
+        return LifespanErrBadStr(what)
+    if kind == 'raise_badrepr':
+        return LifespanErrBadRepr(what)
+    if kind == 'raise_badargs':
+        return RuntimeError(_BadStr(), what)
+    return RuntimeError(what)
+
+
+KNOWN_REFUSED = 'refused-add-middleware-not-rolled-back'
+KNOWN_FALSY_BARE = 'falsy-bare-middleware-ignored'
+EXTRA = 90          # index of the otherwise valid component that travels with a refused add_middleware() call
+
+
 class Ctx:
     """Per-app mutable context: the trace and the action table of the request in flight."""
 
@@ -97,10 +153,11 @@ class Ctx:
             raise falcon.HTTPError(M.error_status(self.codes, site), title='E ' + site)
         if a == 'http_status':
             raise falcon.HTTPStatus(M.status_status(self.codes, site))
+        hostile = self.script.get('hostile_exc')
         if a == 'app_handled':
-            raise AppErrH(site)
+            raise (AppErrHBad if hostile else AppErrH)(site)
         if a == 'app_unhandled':
-            raise AppErrU(site)
+            raise (AppErrUBad if hostile else AppErrU)(site)
         raise AssertionError('unknown action %r' % (a,))
 
     def handler(self, resp, ex):
@@ -200,6 +257,8 @@ RFORMS = {'object': ObjectDecorator, 'wrapped': function_decorator}
 def build_component(ctx, i, comp, stack, lctx=None):
     """Class for component i on the given stack, or None when it would expose nothing there."""
     ns = {}
+    inst_attrs = {}
+    extra_ns = {'__bool__': (lambda self: False)} if comp.get('falsy') else {}
     for m in METHODS:
         style = comp.get(m)
         if style is None:
@@ -214,7 +273,6 @@ def build_component(ctx, i, comp, stack, lctx=None):
             ns[name + '_async'] = _mw_method(ctx, i, m, 'async_suffix', True)
     if stack == 'asgi' and lctx is not None:
         lform = comp.get('lform') or 'method'
-        inst_attrs = {}
 
         def provide(name, impl):
             """The same handler, provided the way comp['lform'] says (all of them are 'the component has a
@@ -247,24 +305,26 @@ def build_component(ctx, i, comp, stack, lctx=None):
                 cb = lctx.get('in_startup', {}).get(_i)
                 if cb is not None:
                     cb()
-                if lctx['actions'].get('M%d.startup' % _i) == 'raise':
-                    raise RuntimeError('startup %d' % _i)
+                a = lctx['actions'].get('M%d.startup' % _i) or ''
+                if a.startswith('raise'):
+                    raise lifespan_error(a, 'startup %d' % _i)
             provide('process_startup', startup)
         if comp.get('shutdown'):
             async def shutdown(scope, event, _i=i):
                 lctx['trace'].append(('shutdown', _i))
                 lctx['log'].append(('call', 'shutdown', _i, event.get('type'), scope.get('type')))
-                if lctx['actions'].get('M%d.shutdown' % _i) == 'raise':
-                    raise RuntimeError('shutdown %d' % _i)
+                a = lctx['actions'].get('M%d.shutdown' % _i) or ''
+                if a.startswith('raise'):
+                    raise lifespan_error(a, 'shutdown %d' % _i)
             provide('process_shutdown', shutdown)
         if ns or inst_attrs:
-            obj = type('MW%d' % i, (), ns)()
+            obj = type('MW%d' % i, (), dict(ns, **extra_ns))()
             for k, v in inst_attrs.items():
                 setattr(obj, k, v)
             return obj
     if not ns:
         return None
-    return type('MW%d' % i, (), ns)()
+    return type('MW%d' % i, (), dict(ns, **extra_ns))()
 
 
 def usable_on(script, stack):
@@ -293,6 +353,8 @@ def shape_hook(impl, form, is_async):
     """Provide the hook action `impl` (a plain function doing the work) as the kind of callable `form` names.
     WSGI: a callable.  ASGI: a callable returning an awaitable (falcon.hooks.AsyncBeforeFn/AsyncAfterFn)."""
     if not is_async:
+        if form == 'falsy_object':      # e.g. a handler that collects what it saw: a list subclass, empty for ever
+            return type('FalsyCallable', (list,), {'__call__': lambda self, *a, **kw: impl(*a, **kw)})()
         if form == 'object':
             return type('HookObject', (), {'__call__': lambda self, *a, **kw: impl(*a, **kw)})()
         if form == 'partial':
@@ -306,10 +368,10 @@ def shape_hook(impl, form, is_async):
 
     if form == 'function':
         return coro
-    if form == 'object':
+    if form in ('object', 'falsy_object'):
         async def call(self, *a, **kw):
             impl(*a, **kw)
-        return type('AsyncHookObject', (), {'__call__': call})()
+        return type('AsyncHookObject', (list,) if form == 'falsy_object' else (), {'__call__': call})()
     if form == 'partial':
         return functools.partial(coro)
     if form == 'method':
@@ -414,6 +476,27 @@ def build_app(script, stack, lctx=None, defer_from=None):
         arg = first or None
     kwargs = {'cors_enable': True} if script.get('cors') else {}
     app = cls(middleware=arg, independent_middleware=script['independent'], **kwargs)
+    ref = script.get('refused')
+    ctx.refusal = None
+    if ref:
+        # an add_middleware() call the framework refuses; the application catches the error and carries on
+        extra = build_component(ctx, EXTRA, {'req': 'plain', 'rsrc': None, 'resp': 'plain', 'startup': True,
+                                             'shutdown': True}, stack, lctx)
+        if ref['why'] == 'cors':
+            bad = falcon.CORSMiddleware()
+        elif ref['why'] == 'nomethods':
+            bad = type('NoMethods', (), {})()
+        else:   # a component written for the other kind of app
+            bad = build_component(Ctx(script), EXTRA + 1, {'req': 'plain', 'rsrc': None, 'resp': None},
+                                  'asgi' if stack == 'wsgi' else 'wsgi')
+        payload = [extra, bad] if not ref.get('order') else [bad, extra]
+        try:
+            app.add_middleware(payload)
+            ctx.refusal = 'accepted'
+        except Exception as ex:  # noqa
+            ctx.refusal = type(ex).__name__
+        if ref.get('reprepare'):
+            app.add_middleware(None)       # "there is the chance that middleware may be None": re-prepares only
     add(later)
 
     def add_pending():
@@ -425,22 +508,58 @@ def build_app(script, stack, lctx=None, defer_from=None):
     app.add_route('/f/{x}', ctx.res, suffix='f')
     app.add_route('/i', ctx.res, suffix='items')
     app.add_route('/z', ctx.falsy)
-    if stack == 'wsgi':
-        def sink(req, resp, **kw):
-            ctx.trace.append(('S', tuple(sorted(kw.items()))))
-            ctx.act('S', 'sink', resp)
 
-        def handler(req, resp, ex, params):
-            ctx.handler(resp, ex)
-    else:
-        async def sink(req, resp, **kw):
-            ctx.trace.append(('S', tuple(sorted(kw.items()))))
-            ctx.act('S', 'sink', resp)
+    def sink_impl(req, resp, **kw):
+        ctx.trace.append(('S', tuple(sorted(kw.items()))))
+        ctx.act('S', 'sink', resp)
 
-        async def handler(req, resp, ex, params):
-            ctx.handler(resp, ex)
-    app.add_sink(sink, r'/s/(?P<tail>\w+)')
-    app.add_error_handler(AppErrH, handler)
+    def handler_impl(req, resp, ex, params):
+        ctx.handler(resp, ex)
+
+    is_async = stack == 'asgi'
+    app.add_sink(shape_hook(sink_impl, script.get('sform') or 'function', is_async), r'/s/(?P<tail>\w+)')
+    app.add_error_handler(AppErrH, shape_hook(handler_impl, script.get('hform') or 'function', is_async))
+    return app, ctx
+
+
+def refusal_reason_is_prepare_stage(script):
+    return bool(script.get('refused')) and script['refused']['why'] in ('nomethods', 'compat')
+
+
+def falsy_bare_indices(script, n_registered=None):
+    """Indices of falsy components that are handed to the framework as a single bare object."""
+    comps = script['comps']
+    n = len(comps) if n_registered is None else n_registered
+    n_ctor = script.get('ctor')
+    first = list(range(n)) if n_ctor is None else [i for i in range(n) if i < n_ctor]
+    later = [] if n_ctor is None else [i for i in range(n) if i >= n_ctor]
+    out = []
+    single = bool(script.get('add_single'))
+    if len(first) == 1 and ((script.get('mw_arg') == 'bare') or (single and (script.get('mw_arg') or 'list') == 'list')):
+        out += [i for i in first if comps[i].get('falsy')]
+    if single:
+        out += [i for i in later if comps[i].get('falsy')]
+    if n_registered is not None and single:
+        out += [i for i in range(n, len(comps)) if comps[i].get('falsy')]
+    return out
+
+
+def build_checked(rec, script, stack, **kw):
+    """build_app, turning a failure into a report (classified when a recorded defect explains it)."""
+    try:
+        app, ctx = build_app(script, stack, **kw)
+    except Exception as ex:  # noqa
+        known = None
+        if refusal_reason_is_prepare_stage(script) and type(ex).__name__ in ('TypeError', 'CompatibilityError'):
+            # narrow: the refused call was refused by the interface check of prepare_middleware() (not by the
+            # CORS check) and a LATER, valid add_middleware()/re-preparation fails with the same kind of error
+            known = KNOWN_REFUSED
+        rec.violation('build-raised', {'script': script, 'stack': stack, 'build': True, 'exc': repr(ex)},
+                      known_key=known)
+        return None
+    if script.get('refused') and ctx.refusal == 'accepted':
+        rec.violation('refused-add-accepted', {'script': script, 'stack': stack, 'build': True})
+        return None
     return app, ctx
 
 
@@ -473,6 +592,22 @@ def classify(script, case, got, want):
     alt = M.interpret(alt_script, alt_case)
     if got[0] == [_norm(e) for e in alt[0]] and got[1] == alt[1]:
         return KNOWN_FALSY
+    return None
+
+
+def classify_falsy_bare(script, case, got_n, status):
+    """Narrow: a component whose truth value is False was handed over as a single bare object (constructor or
+    add_middleware) and the ONLY difference is that this component takes no part at all."""
+    idx = falsy_bare_indices(script, case.get('pre_add'))
+    if not idx:
+        return None
+    alt_script = dict(registered_script(script, case),
+                      comps=[BLANK if i in idx else c for i, c in enumerate(registered_script(script, case)['comps'])])
+    alt_case = dict(case, actions={k: v for k, v in case['actions'].items()
+                                   if not any(k.startswith('M%d.' % i) for i in idx)})
+    alt = M.interpret(alt_script, alt_case)
+    if got_n == [_norm(e) for e in alt[0]] and status == alt[1]:
+        return KNOWN_FALSY_BARE
     return None
 
 
@@ -512,6 +647,8 @@ def check_case(rec, script, case, app, ctx, count=True):
     want_n = [_norm(e) for e in want_trace]
     if got_n != want_n:
         known = classify(script, case, (got_n, status), None)
+        if known is None:
+            known = classify_falsy_bare(script, case, got_n, status)
         rec.violation(_mismatch_kind(got_n, want_n), {'script': script, 'case': case, 'got': got_n, 'want': want_n,
                                                        'status': status, 'want_status': want_status},
                       known_key=known)
@@ -556,7 +693,8 @@ def script_key(script):
             tuple(sorted(script.get('inherit', ()))), tuple(map(tuple, script.get('hooks_base', ()))),
             script.get('ctor'), script.get('add_single'), script.get('add_after_requests'),
             tuple(sorted((script.get('forms') or {}).items())), script.get('mw_arg'), script.get('cors'),
-            tuple(sorted((script.get('hook_forms') or {}).items())))
+            tuple(sorted((script.get('hook_forms') or {}).items())), script.get('hform'), script.get('sform'),
+            script.get('hostile_exc'), tuple(sorted((script.get('refused') or {}).items())))
 
 
 def case_key(skey, case):
@@ -647,11 +785,11 @@ EXH_HOOKS = {'hooks_class': [['before', 0], ['after', 3]], 'hooks_method': [['af
 EXH_HOOK_FORMS = (
     {},                                                                       # plain (coroutine) functions
     {'0': 'future', '3': 'awaitable', '1': 'gather', '2': 'sync_returns_coro'},
-    {'0': 'object', '3': 'method', '1': 'partial', '2': 'future'},
-    {'0': 'awaitable', '3': 'future', '1': 'object', '2': 'gather'},
+    {'0': 'object', '3': 'falsy_object', '1': 'partial', '2': 'future'},
+    {'0': 'falsy_object', '3': 'future', '1': 'object', '2': 'gather'},
     {'0': 'method', '3': 'partial', '1': 'sync_returns_coro', '2': 'awaitable'},
-    {'0': 'gather', '3': 'object', '1': 'method', '2': 'partial'},
-    {'0': 'sync_returns_coro', '3': 'gather', '1': 'future', '2': 'object'},
+    {'0': 'gather', '3': 'method', '1': 'falsy_object', '2': 'partial'},
+    {'0': 'sync_returns_coro', '3': 'gather', '1': 'future', '2': 'falsy_object'},
     {'0': 'partial', '3': 'sync_returns_coro', '1': 'awaitable', '2': 'method'},
 )
 HOOK_FORMS = M.SYNC_HOOK_FORMS + M.ASYNC_ONLY_HOOK_FORMS
@@ -688,7 +826,10 @@ def exhaustive(rec):
             for independent in (True, False):
                 # the way the four hook actions are provided rotates over the stacks (independent of the shard)
                 script = dict(EXH_HOOKS, independent=independent, comps=comps,
-                              hook_forms=EXH_HOOK_FORMS[(si // 2 + independent) % len(EXH_HOOK_FORMS)])
+                              hook_forms=EXH_HOOK_FORMS[(si // 2 + independent) % len(EXH_HOOK_FORMS)],
+                              hform=M.SYNC_HOOK_FORMS[(si + independent) % len(M.SYNC_HOOK_FORMS)],
+                              sform=M.SYNC_HOOK_FORMS[(si + 2 + independent) % len(M.SYNC_HOOK_FORMS)],
+                              hostile_exc=bool((si // 3 + independent) % 2))
                 idx += 1
                 if idx % rec.nshards != rec.shard:
                     continue
@@ -746,6 +887,64 @@ def exhaustive(rec):
     rec.exhaustive = True
 
 
+# ------------------------------------------------------------------ configuration histories
+
+def config_histories_exhaustive(rec):
+    """(1) an add_middleware() call that the framework refuses (duplicate CORSMiddleware under cors_enable, a
+    component without any method, a component written for the other kind of app), carrying an otherwise valid
+    component, at every point of the registration history; (2) components whose truth value is False in every
+    spelling of the middleware argument.  Requests and the lifespan protocol afterwards."""
+    idx = 0
+    c0 = {'req': 'plain', 'rsrc': None, 'resp': 'plain', 'startup': True, 'shutdown': True}
+    c1 = {'req': 'plain', 'rsrc': 'plain', 'resp': 'plain', 'startup': True, 'shutdown': False}
+    base = {'independent': True, 'hooks_class': [], 'hooks_method': []}
+    jobs = []
+    for why in ('cors', 'nomethods', 'compat'):
+        for order in (0, 1):
+            for ctor in (None, 0, 1):
+                for reprepare in (False, True):
+                    for single in (False, True):
+                        sc = dict(base, comps=[c0, c1], cors=(why == 'cors'), add_single=single,
+                                  refused={'why': why, 'order': order, 'reprepare': reprepare})
+                        if ctor is not None:
+                            sc['ctor'] = ctor
+                        jobs.append(('refused.' + why, sc))
+    for n in (1, 2):
+        for mask in range(1, 2 ** n):
+            comps = [dict((c0, c1)[k], falsy=bool(mask >> k & 1)) for k in range(n)]
+            for spell in ('list', 'tuple', 'iter', 'bare'):
+                for ctor in (None, 0, 1) if n == 2 else (None, 0):
+                    for single in (False, True):
+                        sc = dict(base, comps=comps, mw_arg=spell, add_single=single)
+                        if ctor is not None:
+                            sc['ctor'] = ctor
+                        jobs.append(('falsy_component', sc))
+    for label, sc in jobs:
+        idx += 1
+        if idx % rec.nshards != rec.shard:
+            continue
+        skey = script_key(sc)
+        rec.seen('scripts', skey)
+        for stack in STACKS:
+            built = build_checked(rec, sc, stack)
+            rec.count('cfg.' + label)
+            if built is None:
+                rec.count('cfg.build_failed.' + label)
+                continue
+            app, ctx = built
+            for kind in ('route', 'unrouted'):
+                for actions, hactions in placements(reachable_sites(sc, kind), 1, 2):
+                    case = {'stack': stack, 'kind': kind, 'actions': actions, 'hactions': hactions}
+                    check_case(rec, sc, case, app, ctx)
+                    rec.case(case_key(skey, case) if actions else None)
+        hs = ['M%d.startup' % i for i, c in enumerate(sc['comps']) if c['startup']] + \
+             ['M%d.shutdown' % i for i, c in enumerate(sc['comps']) if c['shutdown']]
+        for j, lactions in enumerate([{}] + [{h: RAISE_KINDS[(j + idx) % len(RAISE_KINDS)]} for j, h in enumerate(hs)]):
+            run_lifespan_case(rec, sc, lactions)
+            rec.case(('cfg-lifespan', skey, tuple(sorted(lactions.items()))))
+            rec.count('cfg.lifespan.' + label)
+
+
 # ------------------------------------------------------------------ random part
 
 def random_script(rng):
@@ -778,6 +977,14 @@ def random_script(rng):
               'mw_arg': rng.choice(['list', 'list', 'tuple', 'iter', 'bare']), 'cors': rng.random() < 0.25,
               'hook_forms': {str(h): rng.choice(HOOK_FORMS) for _, h in hooks_class + hooks_method + hooks_base
                              if rng.random() < 0.7}}
+    script['hform'] = rng.choice(M.SYNC_HOOK_FORMS)
+    script['sform'] = rng.choice(M.SYNC_HOOK_FORMS)
+    script['hostile_exc'] = rng.random() < 0.3
+    for c in comps:
+        if rng.random() < 0.15:
+            c['falsy'] = True
+    if script['cors'] and rng.random() < 0.5:
+        script['refused'] = {'why': 'cors', 'order': rng.randrange(2), 'reprepare': rng.random() < 0.5}
     if n and rng.random() < 0.3:
         script['ctor'] = rng.randrange(0, n)
         script['add_single'] = rng.random() < 0.5
@@ -817,11 +1024,10 @@ def random_phase(rec, frac):
                 rec.count('random.skipped_stack.' + stack)
                 continue
             defer = script.get('ctor') if script.get('add_after_requests') else None
-            try:
-                app, ctx = build_app(script, stack, defer_from=defer)
-            except Exception as ex:  # noqa
-                rec.violation('build-raised', {'script': script, 'stack': stack, 'exc': repr(ex)})
+            built = build_checked(rec, script, stack, defer_from=defer)
+            if built is None:
                 continue
+            app, ctx = built
             rec.count('random.apps.' + stack)
             if script.get('ctor') is not None:
                 rec.count('random.add_middleware_later')
@@ -851,12 +1057,11 @@ def run_lifespan_case(rec, script, lactions, count=True, built=None, late=None):
     ctx = None
     if built is None:
         lctx = {'trace': [], 'log': [], 'actions': lactions}
-        try:
-            app, ctx = build_app(script, 'asgi', lctx,
-                                 defer_from=len(script['comps']) - late['n'] if late else None)
-        except Exception as ex:  # noqa
-            rec.violation('build-raised', {'script': script, 'stack': 'asgi', 'exc': repr(ex)})
+        built_now = build_checked(rec, script, 'asgi', lctx=lctx,
+                                  defer_from=len(script['comps']) - late['n'] if late else None)
+        if built_now is None:
             return
+        app, ctx = built_now
     else:
         app, lctx = built
         lctx['trace'], lctx['log'], lctx['actions'] = [], [], lactions
@@ -879,6 +1084,8 @@ def run_lifespan_case(rec, script, lactions, count=True, built=None, late=None):
         if len(want_trace) >= 3:
             rec.count('lifespan.ge3_handlers')
     if count:
+        for v in lactions.values():
+            rec.count('lifespan.raise_kind.' + v)
         for t in want_trace:
             rec.count('lifespan.lform.%s.%s' % (script['comps'][t[1]].get('lform') or 'method', t[0]))
     if count and late:
@@ -893,11 +1100,22 @@ def run_lifespan_case(rec, script, lactions, count=True, built=None, late=None):
     if outcome == 'raised':
         rec.violation('lifespan-escaped', dict(wit, exc=repr(val)))
         return
-    if got_trace != want_trace:
-        rec.violation('lifespan-handler-order', wit)
-        return
-    if got_sent != want_sent:
-        rec.violation('lifespan-events', wit)
+    if got_trace != want_trace or got_sent != want_sent:
+        known = None
+        if refusal_reason_is_prepare_stage(script) and got_sent == want_sent and \
+                [t for t in got_trace if t[1] < EXTRA] == want_trace:
+            # narrow: only the handlers of the components of the REFUSED call are surplus
+            known = KNOWN_REFUSED
+        idx = falsy_bare_indices(script, len(script['comps']) - late['n'] if late else None)
+        if known is None and idx:
+            alt = M.interpret_lifespan(
+                dict(script, comps=[dict(c, startup=False, shutdown=False) if i in idx else c
+                                    for i, c in enumerate(script['comps'])]),
+                {k: v for k, v in lactions.items() if not any(k.startswith('M%d.' % i) for i in idx)}, late)
+            if (got_trace, got_sent) == alt:
+                known = KNOWN_FALSY_BARE
+        rec.violation('lifespan-handler-order' if got_trace != want_trace else 'lifespan-events', wit,
+                      known_key=known)
         return
     # the failure is reported: the failed event carries a message string; handlers saw the right event
     for e in sent:
@@ -928,7 +1146,8 @@ def run_lifespan_case(rec, script, lactions, count=True, built=None, late=None):
         case = {'stack': 'asgi', 'kind': 'route', 'actions': {}, 'hactions': ['ret']}
         if count:
             rec.count('lifespan.late.http_after')
-        check_case(rec, script, case, app, ctx, count=False)
+        # (for the request the late registration is the same as a constructor/add_middleware split)
+        check_case(rec, dict(script, ctor=len(script['comps']) - late['n']), case, app, ctx, count=False)
 
 
 def lifespan_exhaustive(rec):
@@ -954,8 +1173,10 @@ def lifespan_exhaustive(rec):
                      ['M%d.shutdown' % i for i, c in enumerate(comps) if c['shutdown']]
                 lctx = {'trace': [], 'log': [], 'actions': {}}
                 built = (build_app(script, 'asgi', lctx)[0], lctx)
-                for bits in itertools.product(('ret', 'raise'), repeat=len(hs)):
-                    lactions = {h: b for h, b in zip(hs, bits) if b == 'raise'}
+                for nb, bits in enumerate(itertools.product(('ret', 'raise'), repeat=len(hs))):
+                    # the kind of exception (ordinary, __str__ raises, __repr__ raises, unprintable argument) rotates
+                    lactions = {h: RAISE_KINDS[(nb + j + idx) % len(RAISE_KINDS)]
+                                for j, (h, b) in enumerate(zip(hs, bits)) if b == 'raise'}
                     run_lifespan_case(rec, script, lactions, built=built)
                     rec.case(('lifespan', tuple(combo), reqmask, tuple(sorted(lactions))) if hs else None)
 
@@ -983,7 +1204,7 @@ def lifespan_late_exhaustive(rec):
                         if idx % rec.nshards != rec.shard:
                             continue
                         sc = dict(script, add_single=add_single)
-                        for lactions in [{}] + [{h: 'raise'} for h in hs]:
+                        for lactions in [{}] + [{h: RAISE_KINDS[(j + idx) % len(RAISE_KINDS)]} for j, h in enumerate(hs)]:
                             run_lifespan_case(rec, sc, lactions, late=late)
                             rec.case(('lifespan-late', tuple(combo), k, add_single, tuple(sorted(late.items())),
                                       tuple(lactions)))
@@ -994,7 +1215,7 @@ def check_lifespan_random(rec, rng, script):
          [('M%d.shutdown' % i) for i, c in enumerate(script['comps']) if c.get('shutdown')]
     if not usable_on(script, 'asgi'):
         return
-    lactions = {h: 'raise' for h in hs if rng.random() < 0.25}
+    lactions = {h: rng.choice(RAISE_KINDS) for h in hs if rng.random() < 0.25}
     late = None
     n = len(script['comps'])
     if n and rng.random() < 0.4:
@@ -1027,9 +1248,13 @@ def set_floors(rec):
                   'second_resp_fault', 'responder.on_get', 'responder.on_get_f', 'responder.on_get_items',
                   'responder.sink', 'responder.404', 'responder.405', 'responder.auto_options',
                   'inherit.class_before', 'inherit.class_after', 'inherit.class_after_innermost',
+                  'hostile.handled', 'hostile.unhandled',
                   'inherit.base_hook', 'own.class_hook', 'form.object', 'form.wrapped', 'form.object.classhook',
                   'form.wrapped.classhook', 'form.object.classhook.inherited'):
             rec.floor('cls.%s.%s' % (stack, c), 20)
+        for hf in M.SYNC_HOOK_FORMS:
+            rec.floor('cls.%s.hform.%s' % (stack, hf), 20)
+            rec.floor('cls.%s.sform.%s' % (stack, hf), 20)
         for hf in (M.SYNC_HOOK_FORMS if stack == 'wsgi' else HOOK_FORMS):
             for ba in ('before', 'after'):
                 rec.floor('cls.%s.hookform.%s.%s' % (stack, hf, ba), 20)
@@ -1046,6 +1271,11 @@ def set_floors(rec):
     for ev in ('lifespan.startup.failed', 'lifespan.shutdown.failed', 'lifespan.shutdown.complete'):
         rec.floor('lifespan.' + ev, 10)
     rec.floor('lifespan.ge3_handlers', 5)
+    for k in RAISE_KINDS:
+        rec.floor('lifespan.raise_kind.' + k, 20)
+    for lab in ('refused.cors', 'refused.nomethods', 'refused.compat', 'falsy_component'):
+        rec.floor('cfg.' + lab, 20)
+        rec.floor('cfg.lifespan.' + lab, 20)
     for lf in LFORMS:
         for ph in ('startup', 'shutdown'):
             rec.floor('lifespan.lform.%s.%s' % (lf, ph), 20)
@@ -1079,6 +1309,7 @@ def run(rec):
     set_floors(rec)
     lifespan_exhaustive(rec)
     lifespan_late_exhaustive(rec)
+    config_histories_exhaustive(rec)
     exhaustive(rec)
     random_phase(rec, 0.9 if rec.tier == 'quick' else 0.95)
 
@@ -1086,6 +1317,12 @@ def run(rec):
 def replay(rec, w):
     wit = w['witness']
     script = wit['script']
+    if wit.get('build'):
+        built = build_checked(rec, script, wit['stack'])
+        print('build', 'ok' if built else 'FAILED / refused call accepted')
+        rec.case(('build', repr(script)))
+        rec.case(('build-replay', 1))
+        return
     if wit.get('lifespan'):
         run_lifespan_case(rec, script, wit['lactions'], late=wit.get('late'))
         rec.case(('lifespan', repr(wit['lactions'])))
